@@ -2,7 +2,7 @@
 CLAIMED = True
 
 CFG = dict(
-    rule="five streams from one seed: the real ljh.Writer, ljh.Writer3 and off.Writer driven directly (CreateFile, WriteHeader, WriteRecord / "
+    rule="six streams from one seed: the real ljh.Writer, ljh.Writer3 and off.Writer driven directly (CreateFile, WriteHeader, WriteRecord / "
          "Flush interleaved, Close; arbitrary int32/int64 record fields, ~6% records of the wrong length / wrong number of coefficients, "
          "second WriteHeader calls), the real DataPublisher.PublishData with every subset of the three writers (histories of START, "
          "publish batches of 0..100 records, Flush, SetPause(true/false), STOP; publishes before START and after STOP; ~5% records of a "
@@ -12,9 +12,14 @@ CFG = dict(
          "block must be those of START) — and pauses issued before START (every setter clears the flag, OFF alone too). 0..200 records per file, record lengths 1..4096 (LJH3 variable), frame counts / timestamps 0, 2^62, "
          "MaxInt64, negative and random, all geometry / sub-frame parameters (15% arbitrary ints), time bases over the whole positive "
          "float64 range, projector shapes 1..8 bases (direct OFF writer: any two shapes), float fields as arbitrary bit patterns incl. "
-         "NaN/Inf. Files are written under $VERIF_WORKDIR, read back as bytes, parsed by the doc-derived Lean parsers and compared with "
+         "NaN/Inf. Sixth stream `rd` (~55 cases): a file written by the real ljh.Writer "
+         "(0..12 records; 25% with CR/LF bytes as the first body bytes) is cut (not at all / at a permille of its length / a chosen number of "
+         "bytes before its end: 8, 16, 17 bytes into a record, inside the header, ...) and then opened with the repository's own ljh.OpenReader and "
+         "read to the end with NextPulse; version, word size, presamples, samples, channel, timestamp offset, timebase, header and record "
+         "length, every pulse and the terminating error (EOF / ErrUnexpectedEOF) are compared with the Lean transcription of the reader "
+         "(readerParse). Files are written under $VERIF_WORKDIR, read back as bytes, parsed by the doc-derived Lean parsers and compared with "
          "the model's file. Non-trivial = a file with a header and at least one record was judged; distinct by input line.",
-    nontrivial=["remodel-before-first", "ljh22-records", "ljh3-records", "off-records", "ljh22-100+", "ljh3-100+", "off-100+"],
+    nontrivial=["reader-exact", "reader-cut-record", "reader-ate-body-bytes", "remodel-before-first", "ljh22-records", "ljh3-records", "off-records", "ljh22-100+", "ljh3-100+", "off-100+"],
     jobs=seeds(1, 4),
     lean_files=["C05", "ComposeFile", "ComposeEndToEnd", "EmtBounds"],
     trusted_base=["Go int32/int64 conversions and wrap-around as transcribed (twos / mod 2^n); float32(x) conversions are done by Go and "
@@ -46,7 +51,10 @@ MANIFEST = dict(
          "back as exactly the channel's published records in order (pipeline_to_ljh22_file, pipeline_to_ljh3_file); from packets: "
          "abaco_to_ljh22_file, from the Lancero card's bytes under any read schedule: lancero_to_ljh22_file. On every run the real ljh.Writer, ljh.Writer3, off.Writer, "
          "DataPublisher.PublishData and AnySource.WriteControl write files that are parsed by the same doc-derived parsers, judged by the "
-         "same oracle and compared byte-for-byte (body) / field-wise (header) with the model.",
+         "same oracle and compared byte-for-byte (body) / field-wise (header) with the model. The repository's own LJH reader is "
+         "transcribed as well (readerParse): reader_pulses_roundtrip / reader_truncated_record (NextPulse returns exactly the written records, "
+         "then EOF; a cut record ends with EOF at 0/8/16 bytes, else ErrUnexpectedEOF), reader_reads_what_writer_wrote (OpenReader + NextPulse "
+         "on header ++ records, provided the first body byte is not CR/LF) and its counterexample reader_eats_leading_newline_bytes.",
     note="Trusted: Lean 4.33 kernel (axioms propext, Classical.choice, Quot.sound only; audited every run); the hand-written model is tied "
          "to the Go code only by differential testing with seeded generators (not a proof). JSON headers (LJH3, OFF) are checked at run "
          "time by a Lean JSON-subset reader on the implementation's bytes; there is no theorem about encoding/json. Float header fields "
@@ -55,6 +63,11 @@ MANIFEST = dict(
 )
 
 THEOREMS = [
+    ("DastardV.Props.C05Reader", "DastardV.C05.reader_pulses_roundtrip"),
+    ("DastardV.Props.C05Reader", "DastardV.C05.reader_truncated_record"),
+    ("DastardV.Props.C05Reader", "DastardV.C05.reader_eof_hides_partial_record"),
+    ("DastardV.Props.C05Reader", "DastardV.C05.reader_reads_what_writer_wrote"),
+    ("DastardV.Props.C05Reader", "DastardV.C05.reader_eats_leading_newline_bytes"),
     ("DastardV.Props.C05", "DastardV.C05.ljh22_roundtrip"),
     ("DastardV.Props.C05", "DastardV.C05.ljh22_exact"),
     ("DastardV.Props.C05", "DastardV.C05.ljh3_roundtrip"),
